@@ -58,6 +58,9 @@ def writer_table(an, f):
                             if isinstance(tg, ast.Subscript) and isinstance(tg.slice, ast.Constant) and tg.slice.value == "type" \
                                     and isinstance(n.ast.value, ast.Constant):
                                 out[kind] = (n.ast.value.value, t, seen)
+                    if n.kind == "call" and isinstance(n.ast.func, ast.Attribute) and n.ast.func.attr == "set" and len(n.ast.args) == 2 \
+                            and isinstance(n.ast.args[0], ast.Constant) and n.ast.args[0].value == "type" and isinstance(n.ast.args[1], ast.Constant):
+                        out[kind] = (n.ast.args[1].value, t, seen)
     return out, order
 
 
